@@ -323,7 +323,8 @@ impl TableLiteralPropertyType {
         self.tokens.as_ref()
     }
 
-    super::impl_token_fns!(target = [string] iter = [tokens]);
+    // the string type is visited (and its tokens processed) on its own by the node visitors
+    super::impl_token_fns!(iter = [tokens]);
 }
 
 /// Represents an entry in a table type annotation.
